@@ -12,6 +12,7 @@ import (
 	"google.golang.org/protobuf/types/known/timestamppb"
 	"pgregory.net/rapid"
 
+	"verif/internal/ev"
 	"verif/internal/pki"
 )
 
@@ -31,12 +32,15 @@ func fuzzOne(t *testing.T, r req, blobs ...[]byte) {
 	total := 0
 	for _, b := range blobs {
 		total += len(b)
-		if hostileCertTable(b) {
-			return
-		}
 	}
 	for len(blobs) < 3 {
 		blobs = append(blobs, nil)
+	}
+	// Inputs of the recorded certificate-table finding are not run in-process: the dependency may
+	// allocate gigabytes for them and nothing limits this process's address space (the worker-based
+	// sub-checks do run them, and attribute a panic raised in repository code to the repository).
+	if depFor(r, blobs) != "" {
+		return
 	}
 	workerInit()
 	run := func() (alloc uint64) {
@@ -48,6 +52,13 @@ func fuzzOne(t *testing.T, r req, blobs ...[]byte) {
 						alloc = 0
 						return
 					}
+				}
+				if readerNil(r) && strings.Contains(st, "extract/eventlog.Locate(") {
+					if ev.IsKnown("C07/locate-nil-variable-reader") {
+						alloc = 0
+						return
+					}
+					t.Fatalf("VERIF-KEY=C07/locate-nil-variable-reader :: %s (opt %d) panicked on %d input bytes: %v: a UEFI-variable RIM locator is decoded and then read through a nil VariableReader\n%s", r.Entry, r.Opt, total, x, st)
 				}
 				frame := "unknown"
 				for _, line := range strings.Split(st, "\n") {
@@ -68,7 +79,7 @@ func fuzzOne(t *testing.T, r req, blobs ...[]byte) {
 		runtime.ReadMemStats(&m1)
 		return m1.TotalAlloc - m0.TotalAlloc
 	}
-	budget := uint64(baseBudget) + perByte*uint64(total)
+	budget := budgetFor(r.Entry, total)
 	if a := run(); a > budget {
 		if b := run(); b > budget {
 			t.Fatalf("VERIF-KEY=C07/alloc-unbounded/%s :: %s (opt %d) requested %d and %d bytes for %d input bytes (budget %d)", r.Entry, r.Entry, r.Opt, a, b, total, budget)
@@ -89,26 +100,29 @@ func fuzzGenuineEndorsement() []byte {
 }
 
 func FuzzEventLog(f *testing.F) {
-	for i := 0; i < 12; i++ {
+	for i := 0; i < 16; i++ {
 		b := rapid.Custom(func(t *rapid.T) []byte { b, _ := genEventLog(t); return b }).Example(i)
 		if len(b) <= fuzzMaxLen {
 			f.Add(b, uint8(i))
 		}
-		f.Add(rapid.Custom(genSP800155).Example(i), uint8(3))
+		f.Add(rapid.Custom(func(t *rapid.T) []byte { b, _ := genSP800155(t); return b }).Example(i), uint8(3))
 		loc := rapid.Custom(func(t *rapid.T) []byte { _, l := genLocator(t); return l }).Example(i)
-		f.Add(loc, uint8(4+i%4))
+		f.Add(loc, uint8(4+i%12))
 	}
+	f.Add(spBody(0x20), uint8(3))
+	f.Add(spLog(0x20), uint8(0))
 	f.Fuzz(func(t *testing.T, data []byte, sel uint8) {
 		if len(data) > fuzzMaxLen {
 			return
 		}
-		switch s := int(sel) % 8; {
+		switch s := int(sel) % 16; {
 		case s < 3:
 			fuzzOne(t, req{Entry: "CryptoAgileLog.Unmarshal", Opt: s}, data)
 		case s == 3:
 			fuzzOne(t, req{Entry: "SP800155Event3"}, data)
 		default:
-			fuzzOne(t, req{Entry: "exel.Locate", Opt: s - 4}, data)
+			// locator types 0..3 with every option shape (getter / variable reader present or not)
+			fuzzOne(t, req{Entry: "exel.Locate", Opt: (s-4)%4 + []int{0, locNoGetter, locNoReader}[(s-4)/4]}, data)
 		}
 	})
 }
@@ -120,11 +134,21 @@ func FuzzEndorsement(f *testing.F) {
 		b := rapid.Custom(func(t *rapid.T) []byte { b, _ := genEndorsement(t); return b }).Example(i)
 		f.Add(b, uint8(i), uint8(i))
 	}
+	for i := 0; i < 24; i++ {
+		b := rapid.Custom(func(t *rapid.T) []byte {
+			g, _ := genSignedGolden(t)
+			return mustMarshal(pki.Endorse(g, theSignCert.Raw, pki.Key(1)))
+		}).Example(i)
+		f.Add(b, uint8(i%2), uint8(i*11)) // verify.Endorsement / EndorsementProto with every SNP option shape
+		f.Add(b, uint8(5), uint8(i))
+	}
 	f.Fuzz(func(t *testing.T, data []byte, sel, opt uint8) {
 		if len(data) > fuzzMaxLen {
 			return
 		}
-		switch int(sel) % 5 {
+		switch int(sel) % 6 {
+		case 5:
+			fuzzOne(t, req{Entry: "cli", Opt: []int{0, 1, 2, 3, 4, 9, 12}[int(opt)%7], Str: inspectPaths[int(opt)%len(inspectPaths)]}, data)
 		case 0:
 			fuzzOne(t, req{Entry: "verify.Endorsement", Opt: int(opt)}, data)
 		case 1:
@@ -141,17 +165,29 @@ func FuzzEndorsement(f *testing.F) {
 
 func FuzzAttestation(f *testing.F) {
 	g := fuzzGenuineEndorsement()
-	for i := 0; i < 16; i++ {
-		a := rapid.Custom(func(t *rapid.T) []byte { a, _ := genAttestation(t, g); return a }).Example(i)
+	tdxOnly := mustMarshal(pki.Endorse(&epb.VMGoldenMeasurement{Timestamp: timestamppb.New(t0), ClSpec: 1, Digest: make([]byte, 48),
+		Tdx: &epb.VMTdx{Measurements: []*epb.VMTdx_Measurement{{RamGib: 16, Mrtd: mrtd}}}}, theSignCert.Raw, pki.Key(1)))
+	// a log whose SP800-155 event points at the scratch UEFI variable, for extract.Endorsement / the extract command
+	rimLog := spLog(uint32(16 + 2*len("FirmwareRIM") + 2))
+	for i := 0; i < 32; i++ {
+		a := rapid.Custom(func(t *rapid.T) []byte { a, _ := genAttestationShape(t, g); return a }).Example(i)
 		if len(a) <= fuzzMaxLen && !hostileCertTable(a) {
 			f.Add(a, uint8(i), uint8(i))
+			f.Add(a, uint8(i+3), uint8(i*5))
 		}
 	}
 	f.Fuzz(func(t *testing.T, data []byte, sel, opt uint8) {
 		if len(data) > fuzzMaxLen {
 			return
 		}
-		switch int(sel) % 6 {
+		switch int(sel) % 8 {
+		case 6:
+			// sev validate / tdx validate / sev validate without --endorsement, with the real root
+			fuzzOne(t, req{Entry: "cli", Opt: []int{5, 6, 8, 13, 14}[int(opt)%5]}, data, []byte(nil), nil)
+		case 7:
+			// extract PATH with / without a provider, a getter, a variable reader; with the log
+			o := 7 + cliProvider*(int(opt)&1) + cliForceFetch*(int(opt)>>1&1) + cliNoGetter*(int(opt)>>2&1) + cliNoEfiVars*(int(opt)>>3&1) + cliNoLog*(int(opt)>>4&1)
+			fuzzOne(t, req{Entry: "cli", Opt: o}, data, rimLog, data)
 		case 0:
 			fuzzOne(t, req{Entry: "extract.Attestation"}, data)
 		case 1:
@@ -161,9 +197,18 @@ func FuzzAttestation(f *testing.F) {
 		case 3:
 			fuzzOne(t, req{Entry: "SevValidate", Opt: 4 * (int(opt) % 3)}, data, g)
 		case 4:
-			fuzzOne(t, req{Entry: "TdxValidate", Opt: []int{0, 16, 32}[int(opt)%3]}, data, g)
+			e := g
+			if opt&4 != 0 {
+				e = tdxOnly
+			}
+			fuzzOne(t, req{Entry: "TdxValidate", Opt: []int{0, 16, 32}[int(opt)%3]}, data, e)
 		default:
-			fuzzOne(t, req{Entry: "extract.Endorsement", Opt: int(opt) % 4 * 2}, data, nil, nil)
+			// bits: 1 force fetch, 2 getter, 4 provider (returns the same bytes), 8 any manufacturer, 16 no variable reader; 32 with the log
+			var log []byte
+			if opt&32 != 0 {
+				log = rimLog
+			}
+			fuzzOne(t, req{Entry: "extract.Endorsement", Opt: int(opt) % 32}, data, log, data)
 		}
 	})
 }
